@@ -319,11 +319,14 @@ func run(c Case, k *ev.Case) *ev.Failure {
 					return ev.Failf("C06.3 bystander-disturbed", "round %d: caller %s (%s, not cancelled) returned %v although the broker answered its request id %d", round, o.tag, cl.Kind, o.err, o.reqID)
 				}
 			case "before", "waiting":
+				// a nil error is legal here: the property demands that a cancelled caller stops waiting and never consumes another caller's
+				// response, not that it loses the race against its OWN response (the broker answers a moment after the cancellation; a
+				// caller that was not scheduled in between finds both its context done and its response ready). Its response is checked
+				// below like everybody's. (An earlier version demanded the context error and raised false alarms under load.)
 				if o.err == nil {
-					// the response cannot have been there: the broker answers after the cancellation
-					return ev.Failf("C06.3 cancelled-caller", "round %d: caller %s (%s) was cancelled before any answer was sent but returned nil", round, o.tag, cl.Kind)
+					k.Label("cancelled-caller-got-own-response")
 				}
-				if !errors.Is(o.err, context.Canceled) && !errors.Is(o.err, context.DeadlineExceeded) {
+				if o.err != nil && !errors.Is(o.err, context.Canceled) && !errors.Is(o.err, context.DeadlineExceeded) {
 					return ev.Failf("C06.3 cancelled-caller", "round %d: cancelled caller %s returned %v instead of its context error", round, o.tag, o.err)
 				}
 			case "racing":
